@@ -935,14 +935,15 @@ def remap_by_types(
             t_node = self.generic_visit(node)
             assert isinstance(t_node, ast.Dict)
 
-            fields: List[Tuple[str, type]] = [
-                (ast.literal_eval(f), self.lookup_type(v))  # type: ignore
-                for f, v in zip(t_node.keys, t_node.values)
-            ]
             try:
+                fields: List[Tuple[str, type]] = [
+                    (ast.literal_eval(f), self.lookup_type(v))  # type: ignore
+                    for f, v in zip(t_node.keys, t_node.values)
+                ]
                 dict_dataclass = make_dataclass("dict_dataclass", fields)
-            except (TypeError, ValueError):
-                # Keys that are not valid field names (e.g. "a b", "class", "") - we can't
+            except (TypeError, ValueError, SyntaxError):
+                # Keys that are not valid field names (e.g. "a b", "class", "", two keys that
+                # python normalizes to the same identifier, a `**mapping` entry) - we can't
                 # type-follow this dictionary, but it is still a perfectly good dictionary.
                 return t_node
 
